@@ -108,7 +108,18 @@ impl<'a> DocGen<'a> {
             let k = self.r.below(if depth == 0 { 14 } else { 8 });
             let i = match k {
                 0..=6 => I::Word(self.word()),
-                7 => I::Code(self.word()),
+                7 => {
+                    // a code span may hold a run of two or three backticks (written between single backticks it reads back as
+                    // it is; a lone backtick inside would end the span — the escaping class of finding D11)
+                    // Not in headings (depth 1): a heading's plain text is written as the text of the links to its note,
+                    // unescaped (finding D11), where two backtick runs would pair up as a code span.
+                    let w = self.word();
+                    match if depth == 0 { self.r.below(6) } else { 5 } {
+                        0 => I::Code(format!("{}``{}", w, self.word())),
+                        1 => I::Code(format!("{}```{}", w, self.word())),
+                        _ => I::Code(w),
+                    }
+                }
                 8 => I::Emph(self.words(1, 2)),
                 9 => I::Strong(self.words(1, 2)),
                 10 => I::Strike(self.words(1, 2)),
